@@ -64,13 +64,15 @@ def variants(sc, rng, limit):
     vs = []
     simple_states = all(not st["enter"] and not st["exit"] for st in sc["states"]) and not sc.get("values")
     sstyles = ["attr", "dict"] + (["enum"] if simple_states else [])
-    combos = list(itertools.product(["str", "list", "obj", "assign", "event_ctor", "mixed", "mixed"],
+    combos = list(itertools.product(["str", "list", "list_spaced", "obj", "obj", "assign", "event_ctor", "mixed", "mixed"],
                                     ["to", "from", "multi", "multi_from"], [False, True], sstyles, [False, True]))
     rng.shuffle(combos)
     for ev, ts, itself, ss, inh in combos[:limit]:
         v = dict(sc, evstyle=ev, tstyle=ts, itself=itself, sstyle=ss, inherit=inh)
         if ss == "enum" and rng.random() < 0.6:
             v["enum_kind"] = "int0"
+        if ev == "obj" and rng.random() < 0.5:
+            v["events_first"] = True
         if ev == "mixed":      # some transitions name their event with event=, others by class attribute
             v["mixed"] = [1 if (len(t["ev"]) == 1 and rng.random() < 0.5) else 0 for t in sc["trans"]]
         if ev == "obj" and any(len(t["ev"]) > 1 for t in sc["trans"]):
@@ -83,6 +85,17 @@ def variants(sc, rng, limit):
         if ev == "event_ctor" and sc.get("decor_evobj") and rng.random() < 0.8:
             v["decor"] = {"cbs": [], "event": None, "evobj": sc["decor_evobj"]}
         vs.append(v)
+    # the class body written state by state (all transitions leaving one state, then those leaving the next,
+    # in a random order of the states) instead of in the abstract machine's order: another global creation
+    # order, the same ordered list per source state (Proofs/DeclBehaviour.v: statement_order_across_states_
+    # irrelevant)
+    if not sc.get("any") and not sc.get("any_group") and len(sc["trans"]) > 1:
+        order = list(range(sc["n"]))
+        rng.shuffle(order)
+        tr = [t for s in order for t in sc["trans"] if t["s"] == s]
+        if tr != sc["trans"]:
+            vs.append(dict(sc, evstyle=rng.choice(["str", "list"]), tstyle=rng.choice(["to", "from"]), itself=False,
+                           sstyle="attr", inherit=rng.random() < 0.3, trans=tr, regrouped=True, mixed=None, decor=None))
     return vs
 
 
@@ -341,7 +354,7 @@ def generate(rng, tier):
         if rng.random() < 0.5:
             inject_decor_evobj(sc, rng)
         sc["split"] = not sc.get("any") and not sc.get("values") and rng.random() < 0.5
-        sc["variants"] = [{k: v[k] for k in ("evstyle", "tstyle", "itself", "sstyle", "inherit", "mixed", "decor", "enum_kind") if k in v}
+        sc["variants"] = [{k: v[k] for k in ("evstyle", "tstyle", "itself", "sstyle", "inherit", "mixed", "decor", "enum_kind", "events_first") + (("trans", "regrouped") if v.get("regrouped") else ()) if k in v}
                           for v in variants(sc, rng, 10 if tier == "quick" else 24)]
         scs.append(sc)
     return scs, [("abstract machines, each rendered as baseline (event=\"a b\", a.to(b), State attributes) and in up to "
